@@ -108,7 +108,7 @@ func NoSelfAliasing(a *SearchCriteria) bool {
 //@   ensures old(criteria.ModSeq) == nil && other.ModSeq != nil ==> criteria.ModSeq != nil && *criteria.ModSeq == *other.ModSeq
 //@   ensures old(criteria.ModSeq) != nil && other.ModSeq == nil ==> criteria.ModSeq == old(criteria.ModSeq)
 //@   ensures old(criteria.ModSeq) != nil && other.ModSeq != nil && old(criteria.ModSeq.MetadataName) == other.ModSeq.MetadataName && old(criteria.ModSeq.MetadataType) == other.ModSeq.MetadataType ==> criteria.ModSeq != nil && criteria.ModSeq.ModSeq >= old(criteria.ModSeq.ModSeq) && criteria.ModSeq.ModSeq >= other.ModSeq.ModSeq
-//@   ensures old(criteria.ModSeq) != nil && other.ModSeq != nil ==> criteria.ModSeq != nil && criteria.ModSeq.MetadataName == other.ModSeq.MetadataName && criteria.ModSeq.MetadataType == other.ModSeq.MetadataType && criteria.ModSeq.ModSeq >= other.ModSeq.ModSeq
+//@   ensures[C19] old(criteria.ModSeq) != nil && other.ModSeq != nil ==> criteria.ModSeq != nil && criteria.ModSeq.MetadataName == other.ModSeq.MetadataName && criteria.ModSeq.MetadataType == other.ModSeq.MetadataType && criteria.ModSeq.ModSeq >= other.ModSeq.ModSeq
 
 // ---------------------------------------------------------------------------
 // C18: capability implication rules used by the client's encoder.
